@@ -17,6 +17,7 @@ Tie (b) correspondence, model evaluated by vm_compute inside Coq on the same inp
   ensuredir    os.mkdir / os.chmod calls of mapproxy.util.fs.ensure_directory (audit events, scratch directory with k existing
                levels, with and without directory_permissions)          vs  ensure_dir_ops
   tmpname      temporary file of mapproxy.util.fs.write_atomic (audit)  vs  name ++ tmp_suffix r
+  singlecolourloc  FileCache._single_color_tile_location(colour), every byte value, all layouts / roots  vs  single_color_location
   linktext     text of the symlink FileCache.store_tile makes for a single colour tile (tiles below 0..3 dimension directories,
                stored in varying order by one FileCache object)         vs  relpath_comps
   (fsops also runs TileLocker.lock with a usable lock directory and under the fault "lock directory cannot be created")
@@ -778,6 +779,26 @@ def stream_fsops(ctx, corpus):
     from mapproxy.cache.file import FileCache
     from mapproxy.image import ImageSource
     terms3, descr3 = [], []
+    # FileCache._single_color_tile_location(colour): a function of cache_dir, colour and file_ext alone (every byte value, RGB / RGBA / LA)
+    terms4, descr4 = [], []
+    colours = [(254, 0, 4), (0, 0, 0), (255, 255, 255), (9, 10, 15), (16, 17, 159), (160, 200, 30, 0), (1, 2, 3, 255), (7,), (128, 255)]
+    colours += [(v, (v * 7) % 256, 255 - v) for v in range(0, 256, 5)]
+    for k, colour in enumerate(colours):
+        layout = LAYOUTS[k % len(LAYOUTS)]
+        croot = ROOTS[k % 6]
+        ext = ['png', 'jpeg', 'tiff'][k % 3]
+        o = call(lambda: FileCache(croot, ext, directory_layout=layout, link_single_color_images=True)._single_color_tile_location(colour))
+        rep = {'function': 'FileCache(cache_dir, file_ext, directory_layout, link_single_color_images=True)._single_color_tile_location(color)',
+               'cache_dir': croot, 'file_ext': ext, 'directory_layout': layout, 'color': list(colour), 'output': o[1]}
+        ctx.case(('singlecolourloc', croot, ext, layout, colour), True, dict(rep, stream='fsops'))
+        ctx.count('fsops single colour location')
+        if o[0] != 'ok' or not isinstance(o[1], str):
+            ctx.fail('fsops,raised', '_single_color_tile_location raised %s: %r' % (o[1], rep), rep)
+        elif not below(croot, o[1]) or posixpath.dirname(posixpath.normpath(o[1])) != posixpath.normpath(posixpath.join(croot, 'single_color_tiles')):
+            ctx.fail('fsops,single-colour-file-not-in-single_color_tiles-of-the-cache-dir',
+                     '_single_color_tile_location(%r) of FileCache(%r) = %r is not a file directly in <cache_dir>/single_color_tiles' % (colour, croot, o[1]), rep)
+        terms4.append('(%s, [%s], %s, %s)' % (strlit(croot), '; '.join(zlit(v) for v in colour), slit(ext), obs_lit(o)))
+        descr4.append(rep)
     dimsets = [{'time': '2020', 'elevation': '100', 'dim_run': 'a'}, {'time': '2020', 'elevation': '100'}, {'time': '2020'}, None, {}, {'time': '../../..'}]
     for i in range(ctx.n(12, 60)):
         # deep below the scratch directory: a file placed 'n directories above the tile' is still inside the scratch directory
@@ -807,6 +828,8 @@ def stream_fsops(ctx, corpus):
                 continue
             loc = tile.location
             real = cache._single_color_tile_location(colour)
+            terms4.append('(%s, [%s], "png", (Some %s))' % (strlit(cdir), '; '.join(zlit(v) for v in colour), strlit(real)))
+            descr4.append(dict(rep, cache_dir='<scratch>/' + os.path.relpath(cdir, base), color=list(colour), single_colour_file='<scratch>/' + os.path.relpath(real, base)))
             if not os.path.islink(loc):
                 ctx.fail('fsops,single-colour-tile-not-linked', 'tile %r is not a link' % (loc,), rep)
                 continue
@@ -829,6 +852,8 @@ def stream_fsops(ctx, corpus):
             descr3.append(rep)
     ctx.corr_check('linktext', MODEL, 'list str * list str * list str', terms3,
                    "fun c => let '(target, tile_dir, text) := c in list_eqb str_eqb (relpath_comps target tile_dir) text", lambda i: descr3[i])
+    ctx.corr_check('singlecolourloc', MODEL, 'str * list Z * string * option str', terms4,
+                   "fun c => let '(cache_dir, color, ext, out) := c in opt_eqb str_eqb (Some (single_color_location cache_dir color ext)) out", lambda i: descr4[i])
     ctx.corr_check('ensuredir', MODEL, 'nat * bool * list str * list (bool * list str)', terms,
                    "fun c => let '(k, perm, d, obs) := c in "
                    "list_eqb (pair_eqb Bool.eqb (list_eqb str_eqb)) "
